@@ -553,8 +553,9 @@ func ruleC14NestedWaits(c *Ctx) {
 			c.Fn(c.P.funcKey(f))
 			recv := NewTB().Of(call.Common().Args[0]).String()
 			okPost, okChain := false, false
+			chainWhy := ""
 			// (the chaining may live in a helper the evaluator calls: `query.waitFor(nested)`)
-			deepInstrs(f, func(_ *ssa.Function, _ *TB, b *ssa.BasicBlock, in ssa.Instruction) {
+			deepInstrs(f, func(_ *ssa.Function, htb *TB, b *ssa.BasicBlock, in ssa.Instruction) {
 				switch in := in.(type) {
 				case *ssa.Call:
 					if bi, ok := in.Common().Value.(*ssa.Builtin); ok && bi.Name() == "append" && len(in.Common().Args) == 2 {
@@ -573,6 +574,20 @@ func ruleC14NestedWaits(c *Ctx) {
 					if clo == nil {
 						return
 					}
+					// the terms of the goroutine's values as the evaluator sees them: captured variables and parameters resolved
+					var gtb *TB
+					if mc, ok := in.Call.Value.(*ssa.MakeClosure); ok {
+						gtb = closureTB(mc, htb)
+					} else {
+						gtb = NewTB()
+						gtb.bind = map[*ssa.Parameter]*Term{}
+						for i, pa := range clo.Params {
+							if i < len(in.Call.Args) {
+								gtb.bind[pa] = htb.Of(in.Call.Args[i])
+							}
+						}
+					}
+					direction := ""
 					waits, dones := false, false
 					allInstrs(clo, func(_ *ssa.BasicBlock, cin ssa.Instruction) {
 						var cc *ssa.CallCommon
@@ -586,15 +601,25 @@ func ruleC14NestedWaits(c *Ctx) {
 							return
 						}
 						nm := calleeName(cc)
+						// which group is waited for and which is signalled: the nested query's and the enclosing one's, not the reverse
 						if strings.HasSuffix(nm, "(*sync.WaitGroup).Wait") {
 							waits = true
+							if len(cc.Args) == 1 && !strings.Contains(gtb.Of(cc.Args[0]).String(), recv) {
+								direction = "the goroutine waits for " + gtb.Of(cc.Args[0]).String() + ", which is not the wait group of the nested query"
+							}
 						}
 						if strings.HasSuffix(nm, "(*sync.WaitGroup).Done") {
 							dones = true
+							if len(cc.Args) == 1 && strings.Contains(gtb.Of(cc.Args[0]).String(), recv) {
+								direction = "the goroutine signals the nested query's own wait group, not the enclosing query's"
+							}
 						}
 					})
-					if waits && dones {
+					if waits && dones && direction == "" {
 						okChain = true
+					}
+					if direction != "" {
+						chainWhy = direction
 					}
 				}
 			})
@@ -635,7 +660,7 @@ func ruleC14NestedWaits(c *Ctx) {
 				why = append(why, "the nested query's post-processors are not handed to the parent")
 			}
 			if !okChain {
-				why = append(why, "the nested wait group is not chained into the parent's (an ASYNC call inside the nested query may still be running when Exec returns)")
+				why = append(why, "the nested wait group is not chained into the parent's (an ASYNC call inside the nested query may still be running when Exec returns)"+map[bool]string{true: ": " + chainWhy, false: ""}[chainWhy != ""])
 			}
 			c.Check(len(why) == 0, "c07.nested-discipline", key, c.P.Pos(call.Pos()), "post-processors handed over; nested wait group chained", strings.Join(why, "; "))
 		}
